@@ -796,6 +796,7 @@ pub fn can_contain_type<'a>(node: &'a AstNode<'a>, child: &NodeValue) -> bool {
         // possibly going to fall into the spoiler. This should be fixed in
         // inlines.
         | NodeValue::EscapedTag(_)
+        | NodeValue::Escaped
         => !child.block(),
 
         NodeValue::Table(..) => matches!(*child, NodeValue::TableRow(..)),
@@ -820,6 +821,7 @@ pub fn can_contain_type<'a>(node: &'a AstNode<'a>, child: &NodeValue) -> bool {
                 | NodeValue::SpoileredText
                 | NodeValue::Underline
                 | NodeValue::Subscript
+                | NodeValue::Escaped
         ),
 
         #[cfg(feature = "shortcodes")]
@@ -840,6 +842,7 @@ pub fn can_contain_type<'a>(node: &'a AstNode<'a>, child: &NodeValue) -> bool {
             | NodeValue::SpoileredText
             | NodeValue::Underline
             | NodeValue::Subscript
+            | NodeValue::Escaped
             | NodeValue::ShortCode(..)
         ),
 
